@@ -58,6 +58,11 @@ def r1(ctx):
                     if q in CLOCKS:
                         wclk.add(q)
     ctx.check("C11.R1", len(wclk) == 1, key(fn, "writer-clock"), site(fn), "the heartbeat timestamp is not taken from exactly one clock (%s)" % sorted(wclk), "writer clock %s" % sorted(wclk))
+    un = [n for c in ut for n in nodes_with(fn, c)]
+    pth = fn.cfg.must_pass(fn.cfg.entry, un, follow_exc=False)
+    ctx.check("C11.R1", pth is None, key(fn, "every-notify-beats"), site(fn), "WorkerTmp.notify() can return without touching the heartbeat file (throttled / coalesced beats): the beat a worker sends right before "
+              "it starts a request is dropped, so a request shorter than the timeout is charged with the age of the previous beat and the healthy worker is killed", "os.utime on every notify()",
+              path=pth and fn.cfg.fmt_path(pth))
     ctx.check("C11.R1", all("fileno" in norm(c.args[0]) for c in ut), key(fn, "writes-own-fd"), site(fn), "the heartbeat is not written to the worker's own temp file descriptor", "utime(self._tmp.fileno(), ..)")
     fm = ctx.fn(repo.func(ARB + ".murder_workers"))
     # the scanner's clock: what the heartbeat is subtracted from (`<clock>() - worker.tmp.last_update()`), wherever
